@@ -177,6 +177,11 @@ def gen_raire(rng):
         # the format is CSV: names may be quoted and contain commas or quotes
         for c in cons:
             cands[c] = [rng.choice(("Smith, John", "O\"Neil", "Lee", "Ng, A.", "van der Berg", "X Y")) + str(k) for k in range(len(cands[c]))]
+    if rng.random() < 0.1:
+        # a contest whose identifier is a word the format itself uses
+        word = rng.choice(("Contest", "winner", "informal"))
+        cands[word] = cands.pop(cons[0])
+        cons[0] = word
     rows = [[str(ncon)]]
     for c in cons:
         rows.append(["Contest", c, str(len(cands[c]))] + cands[c] + ["winner", cands[c][0]])
